@@ -250,12 +250,12 @@ Proof.
   { intros t0 H0 _. pose proof (tstep_prot _ _ _ _ _ _ _ _ _ Hs) as Hp. destruct H0. constructor; try assumption.
     intros vis Hv Hq. rewrite Hp. apply (ti_psnap0 vis Hv Hq). }
   destruct a; cbn [tstep] in Hs.
-  - (* TBegin *)
+  - (* KBegin *)
     destruct (negb _); [discriminate|]. destruct (_ || _); inversion Hs; subst s' t' evs; [apply ti_init|].
     constructor; unfold p1cands; cbn; try (intros; discriminate); try (intros; contradiction); try reflexivity.
     + intros _ _. repeat split. intros; contradiction.
     + left; reflexivity.
-  - (* TSnap *)
+  - (* KSnap *)
     destruct (t_ph t) eqn:Eph; try discriminate. destruct (memn p vis); [discriminate|]. cbv zeta in Hs.
     inversion Hs; subst s' t' evs. clear Hs.
     assert (Hqs : q_snap (t_ph t) = true) by (rewrite Eph; reflexivity).
@@ -284,7 +284,7 @@ Proof.
     + intros todo Hq. discriminate Hq.
     + intros _ Hq. destruct (ti_early0 (or_introl Hqs) Hq) as [A [B C]]. repeat split; try assumption.
       intros e' He'. destruct (Hin e' He') as [He|[He ->]]; [apply C, He|reflexivity].
-  - (* TSnapEnd *)
+  - (* KSnapEnd *)
     destruct (t_ph t) eqn:Eph; try discriminate.
     assert (Hsort : TI s (set_ph t QSort)).
     { destruct H. constructor; unfold set_ph, p1cands in *;
@@ -296,7 +296,7 @@ Proof.
     { apply ti_set_ph; [exact H|intros v Hq; discriminate Hq|intros Hq; discriminate Hq|intros todo Hq; discriminate Hq]. }
     destruct (t_force t); [inversion Hs; subst; exact Hsort|].
     destruct (_ <? _); inversion Hs; subst; assumption.
-  - (* TSortEnd *)
+  - (* KSortEnd *)
     destruct (t_ph t) eqn:Eph; try discriminate. destruct (forallb _ _) eqn:Eall; [|discriminate].
     assert (Htodo : forall e, In e (t_cands t) -> In (e_p e) perm).
     { intros e He. rewrite forallb_forall in Eall. apply memn_In, Eall, He. }
@@ -318,7 +318,7 @@ Proof.
       * intros [Hq|Hq]; discriminate Hq.
       * rewrite A. unfold zlen. cbn. lia.
       * left. exact A.
-  - (* TSelect *)
+  - (* KSelect *)
     destruct (t_ph t) eqn:Eph; try discriminate. destruct todo as [|p r].
     { inversion Hs; subst s' t' evs. apply ti_exit; [exact H|left; exact Eph]. }
     destruct (t_tg t <=? 0) eqn:Etg.
@@ -342,7 +342,7 @@ Proof.
       * destruct (_ && _); inversion Hs; subst s' t' evs; (apply Hstate; [apply ti_setc; assumption|intros vis Hv; discriminate Hv]).
       * inversion Hs; subst s' t' evs. apply Hstate; [apply ti_setc; assumption|intros vis Hv; discriminate Hv].
     + inversion Hs; subst s' t' evs. apply Htake. intros _. exact Ere.
-  - (* TFinish *)
+  - (* KFinish *)
     destruct (t_ph t) eqn:Eph; try discriminate. inversion Hs; subst s' t' evs.
     apply ti_set_ph; [exact H|intros v Hq; discriminate Hq|intros Hq; discriminate Hq|intros todo Hq; discriminate Hq].
 Qed.
